@@ -300,6 +300,10 @@ func Supervise(p *Prop, tier string, seed int64) int {
 				sig := fmt.Sprintf("%s death kind=%s at=%s", p.ID, kind, label)
 				agg.AddViolation(Violation{Prop: p.ID, Sig: sig, What: "worker process died (unrecoverable fault in the code under test): " + kind, Index: idx, Seed: seed, Tier: tier,
 					Detail: map[string]any{"label": label, "stderr_head": head(string(stderr), 1500)}})
+				agg.mu.Lock()
+				agg.Counters["cases"]++
+				agg.Counters["worker_deaths"]++
+				agg.mu.Unlock()
 				qmu.Lock()
 				deaths++
 				tooMany := deaths > 50
